@@ -45,3 +45,190 @@ func Harness_C03_default_cleaner() {
 	}
 	verifReach("end")
 }
+
+// C03 cleanup_step under the default cleaner with <= 2 consumers: nothing unread is evicted.
+func Harness_C03_cleanup_default() {
+	s := verifArbitraryBuffer(0)
+	nc := verifNondetInt("consumers")
+	verifAssume(nc >= 0 && nc <= 2)
+	var cs [2]*consumer
+	var cm, dl [2]int
+	if nc >= 1 {
+		cs[0], cm[0], dl[0] = s.verifAddConsumer("c0")
+	}
+	if nc >= 2 {
+		cs[1], cm[1], dl[1] = s.verifAddConsumer("c1")
+	}
+	b := s.b
+	backing := b.buffer[:verifMaxBuf]
+	b.mutex.Lock()
+	changed := b.cleanupLogic()
+	b.mutex.Unlock()
+	shift := b.offset - s.off
+	verifAssert(shift >= 0 && shift <= s.n, "shift_clamped_to_buffer")
+	verifAssert(changed == (shift > 0), "cleanup_reports_change")
+	verifAssert(len(b.buffer) == s.n-shift, "buffer_is_old_suffix")
+	for i := 0; i < verifMaxBuf; i++ {
+		if i < shift {
+			verifAssert(backing[i] == nil, "dropped_cells_are_cleared")
+		} else if i < s.n {
+			t, ok := verifTokOf(b.buffer[i-shift])
+			verifAssert(ok && t == s.vals[i], "retained_values_unchanged")
+		}
+	}
+	if nc == 0 {
+		verifAssert(shift == 0, "nothing_evicted_without_consumers")
+	}
+	for i := 0; i < 2; i++ {
+		if i < nc {
+			verifAssert(b.consumers[cs[i]] == cm[i] && cs[i].offset == dl[i], "cleanup_leaves_consumers")
+			if cm[i]-s.off >= 0 {
+				verifAssert(cm[i]-b.offset >= 0, "nothing_uncommitted_is_evicted")
+			}
+		}
+	}
+	// exact amount: min committed relative offset over active consumers
+	if nc == 1 && cm[0]-s.off >= 0 && cm[0]-s.off <= s.n {
+		verifAssert(shift == cm[0]-s.off, "evicts_exactly_the_committed_prefix")
+		verifReach("one_consumer")
+	}
+	if nc == 2 && cm[0]-s.off >= 0 && cm[1]-s.off >= 0 {
+		m := cm[0]
+		if cm[1] < m {
+			m = cm[1]
+		}
+		verifAssert(shift == m-s.off, "evicts_exactly_the_common_committed_prefix")
+		verifReach("two_consumers")
+	}
+}
+
+// C03 cleanup_step under an arbitrary cleaner result (any 64-bit int): the shift is clamped, the
+// retained suffix is exact, and a consumer whose next value was evicted errors while others are unaffected.
+func Harness_C03_cleanup_arbitrary() {
+	s := verifArbitraryBuffer(0)
+	c, committed, delta := s.verifAddConsumer("c")
+	want := verifNondetInt("cleaner_result")
+	var gotSize int
+	var gotOffsets []int
+	s.b.cleaner = &CleanerConfig{Cleaner: func(size int, offsets []int) int {
+		gotSize, gotOffsets = size, offsets
+		return want
+	}}
+	b := s.b
+	b.mutex.Lock()
+	b.cleanupLogic()
+	b.mutex.Unlock()
+	verifAssert(gotSize == s.n && len(gotOffsets) == 1 && gotOffsets[0] == committed-s.off, "cleaner_sees_size_and_relative_committed_offsets")
+	shift := b.offset - s.off
+	exp := want
+	if exp > s.n {
+		exp = s.n
+	}
+	if exp < 0 {
+		exp = 0
+	}
+	verifAssert(shift == exp, "shift_is_clamped_cleaner_result")
+	verifAssert(len(b.buffer) == s.n-shift, "buffer_is_old_suffix")
+	for i := 0; i < verifMaxBuf; i++ {
+		if i >= shift && i < s.n {
+			t, ok := verifTokOf(b.buffer[i-shift])
+			verifAssert(ok && t == s.vals[i], "retained_values_unchanged")
+		}
+	}
+	// the consumer's next Get after the trim
+	rel := committed + delta - s.off
+	if rel < s.n {
+		v, err := c.Get(nil)
+		if rel < shift {
+			verifAssert(err != nil, "evicted_next_value_means_error")
+			verifAssert(c.offset == delta, "failed_get_does_not_advance")
+			verifReach("lagging_after_trim")
+		} else {
+			t, ok := verifTokOf(v)
+			verifAssert(err == nil && ok && t == s.vals[rel], "consumer_at_or_beyond_trim_point_unaffected")
+			verifReach("unaffected_after_trim")
+		}
+	}
+}
+
+// C03 fixed_cleaner: for all 64-bit max, target, size and <= 3 offsets.
+func Harness_C03_fixed_cleaner() {
+	max, target, size := verifNondetInt("max"), verifNondetInt("target"), verifNondetInt("size")
+	verifAssume(size >= 0)
+	n := verifNondetInt("n")
+	verifAssume(n >= 0 && n <= 3)
+	backing := []int{verifNondetInt("o0"), verifNondetInt("o1"), verifNondetInt("o2")}
+	offsets := backing[:n]
+	calls := 0
+	var note FixedBufferCleanerNotification
+	withCb := verifNondetBool("with_callback")
+	var cb func(FixedBufferCleanerNotification)
+	if withCb {
+		cb = func(nt FixedBufferCleanerNotification) { calls++; note = nt }
+	}
+	cl := FixedBufferCleaner(max, target, cb)
+	r := cl(size, offsets)
+	if size > max {
+		verifAssert(r == size-target, "forced_trim_is_size_minus_target")
+		if withCb {
+			verifAssert(calls == 1 && note.Max == max && note.Target == target && note.Size == size && note.Trim == r && len(note.Offsets) == n, "callback_called_once_with_details")
+		}
+		verifReach("forced")
+	} else {
+		verifAssert(calls == 0, "no_callback_without_forced_trim")
+		verifAssert(r == DefaultCleaner(size, offsets), "below_max_equals_default_cleaner")
+		verifReach("default")
+	}
+}
+
+// C03/C04 fixed_quiescent: one cleanupLogic step with FixedBufferCleaner(max, target<=max) leaves len <= max.
+func Harness_C03_fixed_step() {
+	s := verifArbitraryBuffer(0)
+	c, committed, _ := s.verifAddConsumer("c")
+	_ = c
+	max, target := verifNondetInt("max"), verifNondetInt("target")
+	verifAssume(target <= max && target >= 0)
+	s.b.cleaner = &CleanerConfig{Cleaner: FixedBufferCleaner(max, target, nil)}
+	b := s.b
+	b.mutex.Lock()
+	b.cleanupLogic()
+	b.mutex.Unlock()
+	verifAssert(len(b.buffer) <= max || len(b.buffer) == 0, "fixed_cleaner_bounds_size")
+	if s.n > max {
+		verifAssert(len(b.buffer) == target, "forced_trim_reaches_target")
+		verifReach("trimmed")
+	} else if committed-s.off >= 0 && committed-s.off <= s.n {
+		verifAssert(len(b.buffer) == s.n-(committed-s.off), "below_max_behaves_like_default")
+	}
+}
+
+// C03 observers: Slice, Size, Diff.
+func Harness_C03_observers() {
+	s := verifArbitraryBuffer(0)
+	c, committed, delta := s.verifAddConsumer("c")
+	b := s.b
+	verifAssert(b.Size() == s.n, "size_is_retained_length")
+	sl := b.Slice()
+	verifAssert(len(sl) == s.n, "slice_is_retained_suffix")
+	for i := 0; i < verifMaxBuf; i++ {
+		if i < s.n {
+			t, ok := verifTokOf(sl[i])
+			verifAssert(ok && t == s.vals[i], "slice_is_retained_suffix")
+		}
+	}
+	d, ok := b.Diff(c)
+	verifAssert(ok && d == s.off+s.n-(committed+delta), "diff_is_put_count_minus_read_position")
+	verifAssert((d > s.n) == (committed+delta < s.off), "diff_exceeds_size_iff_lagging")
+	foreign := &consumer{producer: new(Buffer)}
+	d2, ok2 := b.Diff(foreign)
+	verifAssert(!ok2 && d2 == 0, "diff_foreign_consumer")
+	var nilc Consumer
+	d3, ok3 := b.Diff(nilc)
+	verifAssert(!ok3 && d3 == 0, "diff_nil_consumer")
+	// Slice is a copy
+	if s.n > 0 {
+		sl[0] = vtok(12345)
+		t, _ := verifTokOf(b.buffer[0])
+		verifAssert(t == s.vals[0], "slice_is_a_copy")
+	}
+}
